@@ -32,6 +32,9 @@ ASSUMPTIONS = [
     "remove_node is reached for dead referents (the sweep); list.remove finds the wrapper by identity",
 ]
 TRUSTED = ["assumed contract of rustworkx.PyDiGraph, of id()/weakref and of the dict/list/set builtins (sgmodel.py)"]
+BOUNDED_ONLY_CLAUSES = ["that the INFERENCES a new relation triggers (C15's rules, which walk the neighbouring edges) are unaffected by edges of dead, "
+                        "not yet swept instances is carried by one obligation on the transitive rule's neighbour selection and otherwise by the "
+                        "garbage-prefix driver; the registry operations themselves are proved from any well-formed state"]
 
 
 def graph_call(vm, world, name, *args):
@@ -313,5 +316,6 @@ def h_canary():
 
 def harnesses():
     from .C13 import h_sweep          # the lazy sweep is part of what C14 relies on (proved in C13's module)
+    from .C15 import h_transitive_sources      # which neighbouring edges the transitive rule composes with (dead far ends excluded)
     return [h_sweep(), h_remove_node(), h_add_node(), h_add_relation(), h_ensure_registered(), h_ensure_unregistered(),
-            h_wrapped_instance_ctor(), h_relation_post_init(), h_canary()]
+            h_wrapped_instance_ctor(), h_relation_post_init(), h_transitive_sources(), h_canary()]
